@@ -15,6 +15,9 @@ if [ -f "$1" ]; then
   f=$(python3 -c "import json,sys,re; d=json.load(open(sys.argv[1])); m=re.search(r'KeystoreManagerForPoC\)\.(\w+)', d.get('obligation','')+' '+d.get('func','')); print(m.group(1) if m else '')" "$1" 2>/dev/null)
   case "$f" in ChangeRemark|DeleteKeystore|NextAddresses|GenerateNewPublicKey|ChangePubPassphrase|ChangePrivPassphrase) OP=$f;; esac
 fi
-cd "$REPO" && out=$(go test -overlay "$D/ov.json" -vet=off -count=1 -timeout 600s -run TestGovcReplayC18 ./$P/ 2>&1)
+MODE=other
+if [ -f "$1" ] && grep -q "hardened-parent-key-fills-32-bytes" "$1"; then MODE=known; fi
+[ "${3:-}" = known ] && MODE=known
+cd "$REPO" && out=$(GOVC_C18_MODE=$MODE go test -overlay "$D/ov.json" -vet=off -count=1 -timeout 600s -run TestGovcReplayC18 ./$P/ 2>&1)
 echo "$out" | grep -v "^time=" | grep -A3 "REPRODUCED" | grep -v "^--" | head -32
 echo "$out" | grep -q REPRODUCED || { echo "$out" | tail -3; exit 1; }
